@@ -203,3 +203,169 @@ Print Assumptions C11_source_find_omen_level_is_model.
 Print Assumptions C11_source_scorer_parse_is_model.
 Print Assumptions C11_scorer_eq_trainer_translated.
 Print Assumptions C11_guesser_iff_translated.
+
+(* ---- third tie to the source: the TRAINER side.  gen/OmenTrainer_gen.v, OmenTrainerOut_gen.v and
+   OmenTrainerAlpha_gen.v are the translation of the Python text of smoothing.py (_calc_level,
+   smooth_grammar, smooth_length), alphabet_lookup.py (AlphabetLookup.__init__, is_in_alphabet, parse,
+   apply_smoothing), omen_file_output.py (_save_alphabet, save_omen_rules_to_disk) and
+   alphabet_generator.py (harness/translate_omen_trainer.py, redone on every run).  Each equals the
+   hand-written model of theories/OmenTrainer.v for ALL inputs, exceptions included, and for every
+   choice of the oracles math.log / math.floor (lg, fl).  The tables the theorems above take "as given"
+   (T with wf_ttab T, levels_le 10 T, chars_avoid .. T) are then PROVED to be what the trainer builds
+   from any password list, and the level files to be the line lists of `write T`, so that the
+   agreement theorems hold for the translated trainer + writer without hypotheses on the tables.
+   These come LAST: the Require fails when the translation or its equality proofs no longer check. *)
+From Coq Require Import Floats.
+From Pcfg Require Import OmenTrainer OmenTrainerRt OmenTrainerProofs OmenTrainerGenProofs OmenTrainerGenProofsOut
+     OmenTrainerGenProofsAlpha OmenTrainerGenInstOut OmenTrainerGenInst.
+From PcfgGen Require Import OmenTrainer_gen OmenTrainerOut_gen OmenTrainerAlpha_gen.
+
+Theorem C11_source_calc_level_is_model :
+  forall lg fl base total factor max_level,
+  py_calc_level lg fl base total factor max_level = calc_level lg fl base total factor max_level.
+Proof. exact gen_calc_level_eq. Qed.
+
+Theorem C11_source_smooth_length_is_model :
+  forall lg fl ln ln_counter max_level,
+  py_smooth_length lg fl ln ln_counter max_level = smooth_length lg fl ln ln_counter max_level.
+Proof. exact gen_smooth_length_eq. Qed.
+
+(* [grammar_ok]: the association list is a dict (keys pairwise different on both levels) *)
+Theorem C11_source_smooth_grammar_is_model :
+  forall lg fl g ip_total ep_total, grammar_ok g ->
+  py_smooth_grammar lg fl g ip_total ep_total = smooth_grammar lg fl g ip_total ep_total.
+Proof. exact gen_smooth_grammar_eq. Qed.
+
+Theorem C11_source_apply_smoothing_is_model :
+  forall lg fl A, grammar_ok (al_grammar A) -> py_alookup_apply_smoothing lg fl A = apply_smoothing lg fl A.
+Proof. exact gen_alookup_apply_smoothing_eq. Qed.
+
+Theorem C11_source_alookup_init_is_model :
+  forall lg fl alphabet ngram min_length max_length,
+  py_alookup_init lg fl alphabet ngram min_length max_length = TOk (alookup_init alphabet ngram min_length max_length).
+Proof. exact gen_alookup_init_eq. Qed.
+
+Theorem C11_source_is_in_alphabet_is_model :
+  forall lg fl A s, py_alookup_is_in_alphabet lg fl A s = TOk (in_alphabet (al_alphabet A) s).
+Proof. exact gen_alookup_is_in_alphabet_eq. Qed.
+
+Theorem C11_source_parse_is_model :
+  forall lg fl A pw, py_alookup_parse lg fl A pw = parse A pw.
+Proof. exact gen_alookup_parse_eq. Qed.
+
+Theorem C11_source_save_alphabet_is_model :
+  forall repr sc file_name directory alphabet encoding fs,
+  py_save_alphabet repr sc file_name directory alphabet encoding fs =
+  TOk (true, fs_put fs (path_join directory file_name) (alphabet_text alphabet)).
+Proof. exact gen_save_alphabet_eq. Qed.
+
+(* the writer, for a smoothed object with table view T: IP.level / EP.level / CP.level / LN.level hold
+   the line lists of `write T` (str(level) TAB string LF), then config.txt (oracle), alphabet.txt,
+   omen_keyspace.txt, omen_pws_per_level.txt, pcfg_omen_prob.txt *)
+Theorem C11_source_save_omen_rules_is_model :
+  forall repr sc A T ks lc nvalid base pi fs, ttab_of A = Some T ->
+  py_save_omen_rules_to_disk repr sc A ks lc nvalid base pi fs = save_rules repr sc T ks lc nvalid base pi fs.
+Proof. exact gen_save_omen_rules_eq. Qed.
+
+Theorem C11_source_process_password_is_model :
+  forall G pw, py_agen_process_password G pw = TOk (process_password G pw).
+Proof. exact gen_agen_process_password_eq. Qed.
+
+Theorem C11_source_get_alphabet_is_model :
+  forall G, py_agen_get_alphabet G = TOk (get_alphabet G).
+Proof. exact gen_agen_get_alphabet_eq. Qed.
+
+(* pass 2 + smoothing as run_trainer.py drives the translated functions *)
+Theorem C11_source_train_is_model :
+  forall lg fl alphabet ngram max_length pws, (1 <= ngram)%Z ->
+  py_train lg fl alphabet ngram max_length pws = train lg fl alphabet ngram max_length pws.
+Proof. exact gen_train_eq. Qed.
+
+(* the clamp: every level of _calc_level lies in 0..max_level, whatever log and floor are *)
+Theorem C11_levels_clamped :
+  forall lg fl base total factor m l, (0 <= m)%Z ->
+  calc_level lg fl base total factor m = TOk l -> (0 <= l <= m)%Z.
+Proof. exact calc_level_range. Qed.
+
+(* the tables the translated trainer builds from ANY password list are the tables of the theorems
+   above: well-formed, levels within the guesser's range, spelled with the alphabet *)
+Theorem C11_trained_table :
+  forall lg fl alphabet ngram max_length pws A,
+  (2 <= ngram)%Z -> (0 <= max_length)%Z -> py_train lg fl alphabet ngram max_length pws = TOk A ->
+  exists T, ttab_of A = Some T /\ wf_ttab T /\ levels_le guesser_max_level T /\
+    tt_ngram T = Z.to_nat ngram /\ tt_max_len T = Z.to_nat max_length /\
+    forall bad, (forall c, In c alphabet -> ~ In c bad) -> chars_avoid bad T.
+Proof. exact gen_trained_table. Qed.
+
+(* C11_scorer_reads_and_agrees / C11_guesser_reads_and_agrees over the translated trainer: the only
+   hypothesis left is that the alphabet holds no TAB / line end of the reader (check_valid) *)
+Theorem C11_scorer_reads_and_agrees_translated :
+  forall lg fl alphabet ngram max_length pws A sbreaks,
+  (2 <= ngram)%Z -> (0 <= max_length)%Z -> py_train lg fl alphabet ngram max_length pws = TOk A ->
+  (forall c, In c alphabet -> ~ In c (TABc :: sbreaks)) ->
+  exists T Sc, ttab_of A = Some T /\ read_s true sbreaks (write T) = Some Sc /\
+               forall s, scorer_level Sc s = trainer_level T s.
+Proof. exact gen_trained_scorer_agrees. Qed.
+
+Theorem C11_guesser_reads_and_agrees_translated :
+  forall lg fl alphabet ngram max_length pws A breaks,
+  (2 <= ngram)%Z -> (0 <= max_length)%Z -> py_train lg fl alphabet ngram max_length pws = TOk A ->
+  (forall c, In c alphabet -> ~ In c (TABc :: breaks)) ->
+  exists T G, ttab_of A = Some T /\ read_g breaks (write T) = Some G /\ wf_tables G /\
+              forall s L, In s (level_strings G (Z.of_nat L)) <-> trainer_level T s = Some L.
+Proof. exact gen_trained_guesser_agrees. Qed.
+
+(* C11_counts over the translated trainer: omen_pws_per_level counts what the guesser produces *)
+Theorem C11_counts_translated :
+  forall lg fl alphabet ngram max_length pws A,
+  (2 <= ngram)%Z -> (0 <= max_length)%Z -> py_train lg fl alphabet ngram max_length pws = TOk A ->
+  exists T, ttab_of A = Some T /\ forall pws' L,
+    count_at (levels_count T pws') (Some L) =
+    length (filter (fun pw => existsb (ostr_eqb pw) (level_strings (gview T) (Z.of_nat L))) pws').
+Proof.
+  intros lg fl alphabet ngram max_length pws A H1 H2 H.
+  destruct (gen_trained_table lg fl _ _ _ _ _ H1 H2 H) as (T & HT & Hwf & Hle & _).
+  exists T. split; [exact HT | exact (ol_counts_guesser T Hwf Hle)].
+Qed.
+
+(* what is on disk after the translated writer returned True ([config_frame]: the oracle for
+   _save_config only touches config.txt) *)
+Theorem C11_written_files :
+  forall repr sc A T ks lc nvalid base pi fs fs', ttab_of A = Some T -> config_frame sc ->
+  py_save_omen_rules_to_disk repr sc A ks lc nvalid base pi fs = TOk (true, fs') ->
+  let dir := path_join base n_Omen in
+  fs_get fs' (path_join dir n_IP) = Some (level_text (write_ip T)) /\
+  fs_get fs' (path_join dir n_EP) = Some (level_text (write_ep T)) /\
+  fs_get fs' (path_join dir n_CP) = Some (level_text (write_cp T)) /\
+  fs_get fs' (path_join dir n_LN) = Some (ln_text (OmenLevel.write_ln T)) /\
+  fs_get fs' (path_join dir n_alphabet) = Some (alphabet_text (pi_alphabet pi)) /\
+  fs_get fs' (path_join dir n_keyspace) = Some (zz_text (rev (most_common_by Z.ltb ks))) /\
+  fs_get fs' (path_join dir n_pws_per_level) = Some (zz_text (most_common_by Z.ltb lc)) /\
+  exists prob, prob_counter ks lc nvalid = TOk prob /\
+    fs_get fs' (path_join dir n_prob) = Some (zf_text repr (most_common_by PrimFloat.ltb prob)).
+Proof.
+  intros repr sc A T ks lc nvalid base pi fs fs' HT Hfr H.
+  rewrite (gen_save_omen_rules_eq repr sc A T _ _ _ _ _ _ HT) in H.
+  exact (save_rules_files _ _ _ _ _ _ _ _ _ _ Hfr H).
+Qed.
+
+Theorem C11_trainer_hypotheses_satisfiable :
+  exists A T, demo_train = TOk A /\ ttab_of A = Some T /\ wf_ttabb T = true /\ levels_leb guesser_max_level T = true /\
+    map te_key (tt_grammar T) = [[97]; [98]]%N /\ trainer_level T [97; 98]%N = Some 6 /\
+    trainer_level T [97; 99]%N = None /\ tt_ln T = [2; 2; 2; 2] /\
+    exists fs', py_save_omen_rules_to_disk (fun _ => [63]%N) (fun d f _ fs => Some (fs_put fs (path_join d f) []))
+                  A [(1, 1); (6, 2)]%Z [(6, 1); (-1, 1); (7, 1)]%Z 3 [100]%N (mk_pinfo [] 2 [97; 98]%N) [] = TOk (true, fs') /\
+                fs_get fs' (path_join (path_join [100]%N n_Omen) n_IP) = Some [50; 9; 97; 10; 50; 9; 98; 10]%N /\
+                fs_get fs' (path_join (path_join [100]%N n_Omen) n_pws_per_level) =
+                  Some [54; 9; 49; 10; 45; 49; 9; 49; 10; 55; 9; 49; 10]%N.
+Proof. exact gen_train_example. Qed.
+
+Print Assumptions C11_source_calc_level_is_model.
+Print Assumptions C11_source_smooth_grammar_is_model.
+Print Assumptions C11_source_parse_is_model.
+Print Assumptions C11_source_save_omen_rules_is_model.
+Print Assumptions C11_source_get_alphabet_is_model.
+Print Assumptions C11_trained_table.
+Print Assumptions C11_scorer_reads_and_agrees_translated.
+Print Assumptions C11_guesser_reads_and_agrees_translated.
+Print Assumptions C11_written_files.
